@@ -115,6 +115,7 @@ def catalogue():
     c["str-case-spelled"] = ({"k": "Str", "o": {"transform_case": "LOWER", "transform_strip": True, "choices": ["ab", "cd"]}}, ["ab", " CD "], ["ef", 5])
     c["loglevel-case-spelled"] = ({"k": "LogLevel", "o": {"transform_case": "Lower", "default": "info"}}, ["debug", " ERROR "], ["trace"])
     c["str-req-min0"] = ({"k": "Str", "o": {"required": True, "min_len": 0, "transform_strip": True, "default": "v"}}, ["a", " b "], ["", "  ", None])
+    c["str-regex-unanchored"] = ({"k": "Str", "o": {"regex": "a.c", "default": "abc"}}, ["abc", "axcde"], ["xabc", "9 abc", "X\nabc", 5])
     c["file-new-in-dir"] = ({"k": "File", "o": {"exists": False, "startdir": "@FW"}}, ["/nonexistent-dir-zq/abs", "fresh.log"], ["taken.log", "adir", 5])
     c["file-in-dir"] = ({"k": "File", "o": {"exists": "file", "startdir": "@FW"}}, ["taken.log"], ["fresh.log", "adir"])
     c["dir-in-dir"] = ({"k": "File", "o": {"exists": "dir", "startdir": "@FW"}}, ["adir"], ["fresh.log", "taken.log"])
@@ -129,7 +130,7 @@ def core_leaves():
 
 
 def option_leaves():
-    return ["int-fracbounds", "int-negfrac", "port-fracmin", "str-case-spelled", "loglevel-case-spelled", "str-req-min0",
+    return ["int-fracbounds", "int-negfrac", "port-fracmin", "str-case-spelled", "loglevel-case-spelled", "str-req-min0", "str-regex-unanchored",
             "file-new-in-dir", "file-in-dir", "dir-in-dir"]
 
 
